@@ -88,6 +88,10 @@ class GStruct(GraphBase):
         E("construct Visibilities(values)", lambda c: _arr(aa.Visibilities(visibilities=c["in_vis"])))
         E("construct Array1D(native values)", lambda c: _arr(aa.Array1D(values=c["in_arr1"], mask=c["mask1"]).native))
         E("construct Mask2D(bool array)", lambda c: _arr(aa.Mask2D(mask=c["in_mask"], pixel_scales=1.0)))
+        E("construct Mask2D(bool array, invert=True)", lambda c: _arr(aa.Mask2D(mask=c["in_mask"], pixel_scales=1.0, invert=True)))
+        E("construct Mask2D(Mask2D, invert=True)", lambda c: _arr(aa.Mask2D(mask=c["mask"], pixel_scales=1.0, invert=True)))
+        E("construct Mask1D(bool array, invert=True)", lambda c: _arr(aa.Mask1D(mask=c["in_mask1"], pixel_scales=1.0, invert=True)))
+        E("construct Array2D(list of lists)", lambda c: _arr(aa.Array2D(values=c["in_list"], mask=c["mask"]).native))
         # slim (1D) inputs: the structure may legitimately share memory with the input, but no query may then write to it
         E("construct Array2D(slim values)", lambda c: _arr(aa.Array2D(values=c["in_slim"], mask=c["mask"]).native))
         E("construct Kernel2D(slim values, shape_native, normalize)",
@@ -180,6 +184,8 @@ class GStruct(GraphBase):
         c["in_vis"] = r.normal(size=5) + 1j * r.normal(size=5)
         c["in_arr1"] = 1.0 + np.arange(5.0)
         c["in_mask"] = m.copy()
+        c["in_mask1"] = np.array([False, True, False, False, True])
+        c["in_list"] = [[float(10 * i + j) for j in range(W)] for i in range(H)]
         nun = int((~m).sum())
         c["in_slim"] = 2.0 + np.arange(nun, dtype=float)
         c["in_grid_slim"] = r.normal(size=(nun, 2)) + 1.0
@@ -205,7 +211,7 @@ class GStruct(GraphBase):
 
     def inputs(self, c):
         return {k: c[k] for k in ("in_arr", "in_grid", "in_vec", "in_kern", "in_vis", "in_arr1", "in_mask", "in_slim", "in_grid_slim",
-                                  "in_kern_slim", "own_kern_values", "own_a_values")}
+                                  "in_kern_slim", "own_kern_values", "own_a_values", "in_mask1", "in_list")}
 
 
 # ======================================================================================== G-rng
@@ -281,6 +287,14 @@ class GData(GraphBase):
         E("read ds.apply_mask(mask2).grids.uniform", lambda c: _arr(c["ds"].apply_mask(mask=c["mask2"]).grids.uniform),
           lambda c: _arr(aa.Grid2D.from_mask(mask=c["ds"].apply_mask(mask=c["mask2"]).data.mask)))
         E("read ds.apply_mask(mask2).data", lambda c: _arr(c["ds"].apply_mask(mask=c["mask2"]).data.native))
+        for what, get in (("convolver.image_frame_1d_indexes", lambda d: _arr(d.convolver.image_frame_1d_indexes)),
+                          ("convolver.blurring_frame_1d_lengths", lambda d: _arr(d.convolver.blurring_frame_1d_lengths)),
+                          ("w_tilde.curvature_preload", lambda d: _arr(d.w_tilde.curvature_preload)),
+                          ("grids.blurring", lambda d: _arr(d.grids.blurring))):
+            E("read ds.apply_mask(mask3: same pixel count).%s" % what, (lambda get: lambda c: get(c["ds"].apply_mask(mask=c["mask3"])))(get),
+              (lambda get: lambda c: get(aa.Imaging(data=c["ds"].apply_mask(mask=c["mask3"]).data, noise_map=c["ds"].apply_mask(mask=c["mask3"]).noise_map,
+                                                    psf=c["ds"].psf)))(get))
+        E("read ds.convolver.image_frame_1d_indexes", lambda c: _arr(c["ds"].convolver.image_frame_1d_indexes))
         E("read ds.apply_mask(mask2).convolver.image_frame_1d_lengths",
           lambda c: _arr(c["ds"].apply_mask(mask=c["mask2"]).convolver.image_frame_1d_lengths),
           lambda c: _arr(self._conv_of(c["ds"].apply_mask(mask=c["mask2"])).image_frame_1d_lengths))
@@ -325,8 +339,11 @@ class GData(GraphBase):
             m[1, 3] = False
         m2 = np.ones((H, W), dtype=bool)
         m2[2:4, 2:5] = False
+        m3 = np.ones((H, W), dtype=bool)  # same pixel count as `m`, different shape (not a translation)
+        for (i, j) in [(1, 2), (2, 2), (3, 2), (4, 2), (5, 2), (3, 3), (3, 4), (2, 4), (4, 4)][: int((~m).sum())]:
+            m3[i, j] = False
         mask = aa.Mask2D(mask=m, pixel_scales=1.0)
-        c = {"mask2": aa.Mask2D(mask=m2, pixel_scales=1.0)}
+        c = {"mask2": aa.Mask2D(mask=m2, pixel_scales=1.0), "mask3": aa.Mask2D(mask=m3, pixel_scales=1.0)}
         c["data"] = aa.Array2D(values=r.normal(size=(H, W)) + 2.0, mask=mask)
         c["noise"] = aa.Array2D(values=0.5 + r.uniform(size=(H, W)), mask=mask)
         c["psf"] = aa.Kernel2D.no_mask(values=0.1 + r.uniform(size=(3, 3)), pixel_scales=1.0)
@@ -354,7 +371,7 @@ class GData(GraphBase):
         return c
 
     def roots(self, c):
-        return {k: c[k] for k in ("ds", "pad", "full", "dsn", "mask2")}
+        return {k: c[k] for k in ("ds", "pad", "full", "dsn", "mask2", "mask3")}
 
     def inputs(self, c):
         return {"data": c["data"].array, "noise_map": c["noise"].array, "psf": c["psf"].array}
